@@ -37,9 +37,10 @@ Definition attr_of (t : table) (a : id) (n : Z) : option Z :=
 Definition cls_of (t : table) (a : id) : option Z :=
   match assoc a t with None => None | Some ag => Some (a_cls ag) end.
 
-(* the driver's class hierarchy: 0 = A(mesa.Agent), 1 = B(A), 2 = C(B), 3 = D(A) *)
+(* the driver's class hierarchy: 0 = A(mesa.Agent), 1 = B(A), 2 = C(B), 3 = D(A),
+   4 = F(A, Falsy): a mixin after the framework base; its instances have __bool__ False and __len__ 0 *)
 Definition parent (c : Z) : option Z :=
-  if c =? 1 then Some 0 else if c =? 2 then Some 1 else if c =? 3 then Some 0 else None.
+  if c =? 1 then Some 0 else if c =? 2 then Some 1 else if c =? 3 then Some 0 else if c =? 4 then Some 0 else None.
 Fixpoint subclass (fuel : nat) (c ty : Z) : bool :=
   (c =? ty) ||
   match fuel with
